@@ -40,17 +40,42 @@ def zero_flag(term):
     if z3.is_rational_value(t):
         f = t.as_fraction()
         return abs(f) <= 1e-8
-    return decide(z3.Bool('isclose0!%s' % t.sexpr()))
+    b = z3.Bool('isclose0!%s' % t.sexpr())
+    FLAGDEFS[b.get_id()] = (b, _abs(t) <= rq(1e-8))
+    return decide(b)
+
+
+FLAGDEFS = {}     # flag Boolean -> its arithmetic meaning; only consulted to turn a stage-1 counterexample into concrete data
+
+
+def _abs(t):
+    return z3.If(t >= 0, t, -t)
+
+
+def close_flag(a, b):
+    """np.isclose(a, b) with NumPy's defaults, |a - b| <= 1e-8 + 1e-5 |b|, as a path decision (see zero_flag)"""
+    ta, tb = z3.simplify(rq(a), som=True), z3.simplify(rq(b), som=True)
+    if z3.is_rational_value(tb) and tb.as_fraction() == 0:
+        return zero_flag(ta)
+    if z3.is_rational_value(ta) and z3.is_rational_value(tb):
+        fa, fb = ta.as_fraction(), tb.as_fraction()
+        return abs(fa - fb) <= 1e-8 + 1e-5 * abs(fb)
+    bl = z3.Bool('isclose!%s!%s' % (ta.sexpr(), tb.sexpr()))
+    FLAGDEFS[bl.get_id()] = (bl, _abs(ta - tb) <= rq(1e-8) + rq(1e-5) * _abs(tb))
+    return decide(bl)
 
 
 class NPP(NPProxy):
     @staticmethod
     def isclose(a, b, **kw):
-        assert b == 0 and not kw
-        raw = a.raw() if isinstance(a, Sym) else np.asarray(a, dtype=object)
-        out = np.zeros(raw.shape, dtype=bool)
-        for idx in np.ndindex(*raw.shape):
-            out[idx] = zero_flag(raw[idx])
+        if kw:
+            raise symex.Unsupported('np.isclose with non-default tolerances')
+        ra = a.raw() if isinstance(a, Sym) else np.asarray(a, dtype=object)
+        rb = b.raw() if isinstance(b, Sym) else np.asarray(b, dtype=object)
+        ra, rb = np.broadcast_arrays(ra, rb)
+        out = np.zeros(ra.shape, dtype=bool)
+        for idx in np.ndindex(*ra.shape):
+            out[idx] = close_flag(ra[idx], rb[idx])
         return out
 
 
@@ -276,12 +301,59 @@ def check_apply(ns, c, local):
             pairs = [(a, b) for a, b in pairs if not a.eq(b)]
             if not pairs:
                 continue
-            rr, _ = symex.nra_check([z3.Or([a != b for a, b in pairs])], timeout_ms=60000)
+            goal = z3.Or([a != b for a, b in pairs])
+            rr, _ = symex.nra_check([goal], timeout_ms=60000)
             if rr == 'sat':
-                return dict(c, what='values differ from (x - mean) * rho')
+                # stage 2: the path's isclose flags get their arithmetic meaning and SQRT its axioms, so that the
+                # counterexample is concrete data (replayed on the real library) and spurious flag combinations drop out
+                extra = []
+                for lit in ctx.pc:
+                    neg = z3.is_not(lit)
+                    atom = lit.arg(0) if neg else lit
+                    if atom.get_id() in FLAGDEFS:
+                        d = FLAGDEFS[atom.get_id()][1]
+                        extra.append(z3.Not(d) if neg else d)
+                for app in _sqrt_apps([goal]):
+                    v = app.arg(0)
+                    extra.append(z3.Implies(v >= 0, z3.And(app * app == v, app >= 0)))
+                rr, s2 = symex.nra_check([goal] + extra, timeout_ms=100000)
+                if rr == 'sat':
+                    return dict(c, what='values differ from (x - mean) * rho', values=_model_values(s2.model()))
+                if rr == 'unsat':
+                    continue
             if rr != 'unsat':
                 raise Inconclusive('apply comparison: solver %s' % rr)
     return None
+
+
+def _sqrt_apps(terms):
+    seen, out = set(), []
+
+    def walk(t):
+        if t.get_id() in seen:
+            return
+        seen.add(t.get_id())
+        if z3.is_app(t):
+            if t.decl().eq(USQRT):
+                out.append(t)
+            for ch in t.children():
+                walk(ch)
+    for t in terms:
+        walk(t)
+    return out
+
+
+def _model_values(m):
+    vals = {}
+    for d in m.decls():
+        n = d.name()
+        if d.arity() == 0 and (n.startswith('x_') or n.startswith('d_')):
+            v = m[d]
+            try:
+                vals[n] = float(v.as_fraction()) if z3.is_rational_value(v) else float(v.approx(20).as_fraction())
+            except Exception:
+                pass
+    return vals
 
 
 def check_misc(ns):
@@ -304,6 +376,38 @@ def check_misc(ns):
             return dict(op='misc', what='wrong feature dimension accepted by accumulate')
         except ValueError:
             pass
+    # every statistics width against every mismatching input width, vectors and tensors, any axis, both in_place settings
+    for F in (1, 2, 3):
+        for how in ('vector', 'tensor'):
+            for G in (1, 2, 3, 4):
+                if G == F:
+                    continue
+                for shape, axis in (((G,), -1), ((2, G), -1), ((2, G), 1), ((G, 2), 0), ((G, 2), -2), ((2, G, 2), 1)):
+                    for ip in (False, True):
+                        for meth in ('apply', 'accumulate'):
+                            if meth == 'accumulate' and ip:
+                                continue
+                            st = S()
+                            if how == 'vector':
+                                st.accumulate(sym((F,), name='d'))
+                                st.accumulate(sym((F,), name='e'))
+                            else:
+                                st.accumulate(sym((2, F), name='d'), axis=-1)
+                            bad = sym(shape)
+                            try:
+                                with warnings.catch_warnings():
+                                    warnings.simplefilter('ignore')
+                                    if meth == 'apply':
+                                        st.apply(bad, axis=axis, in_place=ip)
+                                    else:
+                                        st.accumulate(bad, axis=axis)
+                            except ValueError:
+                                continue
+                            except Exception as e:
+                                symex.guard(e)
+                                return dict(op='misc', what='feature dimension mismatch raised %s instead of ValueError' % type(e).__name__, F=F, bad_shape=list(shape), bad_axis=axis,
+                                            bad_in_place=ip, method=meth)
+                            return dict(op='misc', what='feature dimension mismatch accepted by %s' % meth, F=F, bad_shape=list(shape), bad_axis=axis, bad_in_place=ip, method=meth)
     return None
 
 
@@ -332,11 +436,74 @@ def run_config(cfg):
     return dict(obligations=ob, discharged=dis, violations=viol, samples=samples, twin=dis > 0)
 
 
+def _replay_apply(w, vals):
+    """apply / local with the solver's own data"""
+    from pydrobert.speech.post import Standardize
+    shape, axis = tuple(w['shape']), w['axis']
+    ld = np.dtype(w['ld'])
+    r = len(shape)
+    nv, ip = w['norm_var'], w['in_place']
+    x = np.zeros(shape)
+    for idx in np.ndindex(*shape):
+        x[idx] = vals.get('x_' + '_'.join(map(str, idx)), 0.0)
+    x = (np.round(x) if ld.kind == 'i' else x).astype(ld)
+    orig = x.copy()
+    F = shape[axis % r] if r > 1 else shape[0]
+    st = Standardize(norm_var=nv)
+    try:
+        if w['kind'] == 'apply':
+            d = np.array([[vals.get('d_%d_%d' % (i, j), 0.0) for j in range(F)] for i in range(2)])
+            st.accumulate(d, axis=-1)
+            mu, var = d.mean(0), (d ** 2).mean(0) - d.mean(0) ** 2
+        else:
+            if r == 1 or all(n == 1 for k, n in enumerate(shape) if k != axis % r):
+                return {'reproduced': False, 'detail': 'single-vector local case'}
+            xm = np.moveaxis(x.astype(np.float64), axis % r, -1).reshape(-1, F)
+            mu, var = xm.mean(0), (xm ** 2).mean(0) - xm.mean(0) ** 2
+        with warnings.catch_warnings():
+            warnings.simplefilter('ignore')
+            y = st.apply(x, axis=axis, in_place=ip)
+        bshape = [1] * r
+        bshape[axis % r if r > 1 else 0] = F
+        want = orig.astype(np.float64) - mu.reshape(bshape)
+        if nv:
+            var = np.where(np.isclose(var, 0), 1, var)
+            want = want / np.sqrt(var).reshape(bshape)
+        if y.shape != want.shape or not np.allclose(y, want, rtol=1e-6, atol=1e-9):
+            return {'reproduced': True, 'detail': 'apply differs from (x-mean)/std by up to %.3g for %s data %s%s' % (
+                np.abs(y - want).max(), 'accumulated' if w['kind'] == 'apply' else 'tensor', (d if w['kind'] == 'apply' else orig).tolist(),
+                '' if w['kind'] != 'apply' else ', input %s' % orig.tolist())}
+        return {'reproduced': False, 'detail': 'matches'}
+    except Exception as e:
+        return {'reproduced': True, 'detail': 'real Standardize raised %s: %s' % (type(e).__name__, e)}
+
+
 def replay(w):
     from pydrobert.speech.post import Standardize
     rng = np.random.RandomState(6)
     if w['kind'] == 'misc':
-        return {'reproduced': True, 'detail': w['what']}
+        if 'bad_shape' not in w:
+            return {'reproduced': True, 'detail': w['what']}
+        st = Standardize()
+        st.accumulate(rng.randn(3, w['F']) + 2, axis=-1)
+        bad = rng.randn(*w['bad_shape'])
+        try:
+            with warnings.catch_warnings():
+                warnings.simplefilter('ignore')
+                if w['method'] == 'apply':
+                    out = st.apply(bad, axis=w['bad_axis'], in_place=w['bad_in_place'])
+                else:
+                    out = st.accumulate(bad, axis=w['bad_axis'])
+        except ValueError:
+            return {'reproduced': False, 'detail': 'ValueError raised as documented'}
+        except Exception as e:
+            return {'reproduced': True, 'detail': '%s of an input of shape %s (axis %d) with statistics of %d coefficients raised %s, not ValueError' % (w['method'], tuple(w['bad_shape']), w['bad_axis'], w['F'], type(e).__name__)}
+        return {'reproduced': True, 'detail': '%s of an input of shape %s (axis %d) with statistics of %d coefficients did not raise ValueError (returned %s)' % (
+            w['method'], tuple(w['bad_shape']), w['bad_axis'], w['F'], getattr(out, 'shape', None))}
+    if w.get('values') and w['kind'] in ('apply', 'local'):
+        r0 = _replay_apply(w, w['values'])
+        if r0['reproduced']:
+            return r0
     shape, axis = tuple(w['shape']), w['axis']
     ld = np.dtype(w['ld'])
     r = len(shape)
